@@ -476,6 +476,46 @@ def stripOwned (owned : List Toks) (r : Real) : Real :=
   | .ok toks rout => .ok toks { rout with inside := rout.inside.map (stripItem owned), after := rout.after.map (stripItem owned) }
   | x => x
 
+/-- the second pass, guided by the model's expansion: of the attributes the macro was seen to add by itself, a real
+    item keeps as many as the model's item at that position carries (those are mirrored or re-applied ones — the
+    user's, in whatever stage wrote them) and loses the rest. -/
+def stripAttrsToward (owned : List Toks) : List Attr → List Attr → List Attr
+  | _, [] => []
+  | budget, a :: rest =>
+      if owned.contains a.inner then
+        if budget.contains a then a :: stripAttrsToward owned (budget.erase a) rest
+        else stripAttrsToward owned budget rest
+      else a :: stripAttrsToward owned (budget.erase a) rest
+
+def stripMemberToward (owned : List Toks) : Option GenMember → GenMember → GenMember
+  | some (.fn mas _ _), .fn as s b => .fn (stripAttrsToward owned mas as) s b
+  | _, .fn as s b => .fn (stripAttrsToward owned [] as) s b
+  | _, m => m
+
+def zipOpt {α β : Type} (f : Option α → β → β) : List α → List β → List β
+  | m :: ms, r :: rs => f (some m) r :: zipOpt f ms rs
+  | [], r :: rs => f none r :: zipOpt f [] rs
+  | _, [] => []
+
+def stripItemToward (owned : List Toks) : Option GenItem → GenItem → GenItem
+  | some (.trait mt), .trait t =>
+      .trait { t with attrs := stripAttrsToward owned mt.attrs t.attrs, members := zipOpt (stripMemberToward owned) mt.members t.members }
+  | some (.impl mi), .impl im =>
+      .impl { im with attrs := stripAttrsToward owned mi.attrs im.attrs, members := zipOpt (stripMemberToward owned) mi.members im.members }
+  | _, .trait t =>
+      .trait { t with attrs := stripAttrsToward owned [] t.attrs, members := zipOpt (stripMemberToward owned) [] t.members }
+  | _, .impl im =>
+      .impl { im with attrs := stripAttrsToward owned [] im.attrs, members := zipOpt (stripMemberToward owned) [] im.members }
+  | _, x => x
+
+def stripOwnedToward (owned : List Toks) (mInside mAfter : List GenItem) (r : Real) : Real :=
+  if owned.isEmpty then r else
+  match r with
+  | .ok toks rout =>
+      .ok toks { rout with inside := zipOpt (stripItemToward owned) mInside (permuteToward mInside rout.inside),
+                           after := zipOpt (stripItemToward owned) mAfter (permuteToward mAfter rout.after) }
+  | x => x
+
 /-- inert attributes on the real generated items, each with: did the user write the same attribute in the input? -/
 def inertOnGenerated (item : Item) (r : Real) : List (Attr × Bool) :=
   match r with
